@@ -55,6 +55,11 @@ def run_geo(pid, tier, seed, keys, what_text, sig_extra=None, classes=None, opts
     oracle, res, unlucky = GR.run_oracle(cases)
     for r in res:
         run.add_tlc(GE.FakeRes(r), f"ThreePlusOne modulo {r['p']}: {len(cases)} spacetimes, oracle identities checked")
+    # vacuity guard: the spacetimes run with vacuum=True must be vacuum according to the oracle itself
+    for ci, cse in enumerate(cases, start=1):
+        o = oracle.get(ci)
+        if o and cse.get("vacuum") and any(v != 0 for v in o.get("kappaT", []) if v is not None):
+            raise RuntimeError(f"the {cse['cls']} case is not a vacuum solution according to the oracle: G_ab = {o['kappaT']}")
     run.info["oracle_wall_s"] = round(time.time() - t0, 1)
     run.info["unlucky_case_prime_pairs"] = unlucky
     run.info["oracle_values_not_reconstructed"] = sum(1 for o in oracle.values() if o for v in o.values() for x in v if x is None)
@@ -76,6 +81,12 @@ def run_geo(pid, tier, seed, keys, what_text, sig_extra=None, classes=None, opts
                          "inputs given component-wise, vanishing shift components omitted"))
             jobs.append((ci, 4, "interior", (cse, oracle[ci], 4, "interior", keys, dict(vo, _components="sparse", _reversed=True)),
                          "inputs given component-wise, vanishing shift components omitted, keys in reverse order"))
+            # and every key as the very first request of a fresh instance (nothing has assembled the shift vector yet)
+            for kspec in keys:
+                jobs.append((ci, 4, "interior", (cse, oracle[ci], 4, "interior", [kspec], dict(vo, _components="sparse")),
+                             "inputs given component-wise, vanishing shift components omitted, first request of a fresh instance"))
+        if not cse.get("vacuum"):
+            jobs.append((ci, 4, "interior", (cse, oracle[ci], 4, "interior", keys, dict(opts or {}, _kappa=1.0)), "Einstein's constant kappa = 1 (units 8 pi G = 1)"))
         va = dict(opts or {})
         va["_aniso"] = (1.0, 0.8, 1.25)
         if cse.get("vacuum"):
@@ -98,7 +109,7 @@ def run_geo(pid, tier, seed, keys, what_text, sig_extra=None, classes=None, opts
     for (ci, order, probe, job, label), mm in zip(jobs, outs):
         c = cases[ci - 1]
         nontrivial = c["cls"] not in ("minkowski-like",)
-        for kspec in keys:
+        for kspec in job[4]:
             code_key = kspec[0]
             run.count((c["cls"], c["seed"], code_key, order, probe) if nontrivial else None)
         if not mm:
